@@ -807,6 +807,12 @@ func (c *caseSpec) supplied(path string) bool {
 }
 
 func (c *caseSpec) oracle(obs *observation) (clause, detail string) {
+	c.usesGo = false // (recomputed: the shrinker edits the statements)
+	for _, s := range c.stmts {
+		if s.kind == sGo || s.kind == sGoLit || s.kind == sGoClosure || s.kind >= sGoBuiltin {
+			c.usesGo = true
+		}
+	}
 	if obs.sentinel || obs.env {
 		return "no-process-effect", fmt.Sprintf("sentinel file created=%v, environment variable set=%v", obs.sentinel, obs.env)
 	}
@@ -1011,7 +1017,7 @@ func (c *caseSpec) shrink(failing func() bool) {
 
 func runC19(c *hx.Ctx) error {
 	res := c.Res
-	res.Rule = "generated programs and templates: importer nil / native.Packages / CombinedImporter / failing importer over up to 4 packages (one possibly supplied under the path \"os\"), Globals with functions, a function named len, an auto-imported package and a constant; 0-4 imports in the forms default/named/dot/blank/for of supplied and fictitious paths (os, os/exec, unsafe, syscall, net/http, ./rel, ../rel, lib/zz); uses as call, value, closure, defer, go, go inside a function literal, go of a closure, constant, shadowing local, process effect through the name os; AllowGoStmt on in 1/3. Non-trivial: at least one import or go statement; distinct by configuration+source"
+	res.Rule = "generated programs and templates: importer nil / native.Packages / CombinedImporter / failing importer over up to 4 packages (one possibly supplied under the path \"os\"), Globals with functions, a function named len, an auto-imported package and a constant; 0-4 imports in the forms default/named/dot/blank/for of supplied and fictitious paths (os, os/exec, unsafe, syscall, net/http, ./rel, ../rel, lib/zz); uses as call, value, closure, defer, go, go inside a function literal, go of a closure, go on the builtins println/print/close/copy/delete/recover/cap/new, on a conversion, on a method value of a supplied variable and on a macro, constant, shadowing local, process effect through the name os; AllowGoStmt on in 1/3. Non-trivial: at least one import or go statement; distinct by configuration+source"
 	if os.Getenv("VERIF_REPO") != "" {
 		res.Notes = append(res.Notes, "built against "+filepath.Clean(os.Getenv("VERIF_REPO")))
 	}
@@ -1050,6 +1056,16 @@ func runC19(c *hx.Ctx) error {
 		}
 		if cs.usesGo {
 			res.Hist("with-go-statement")
+		}
+		for _, st := range cs.stmts {
+			if st.kind >= sGoBuiltin {
+				k := map[int]string{sGoBuiltin: "go-builtin-" + st.name, sGoConv: "go-conversion", sGoMethod: "go-method-value", sGoMacro: "go-macro"}[st.kind]
+				if obs.buildErr == "" {
+					res.Hist(k + "-built")
+				} else {
+					res.Hist(k + "-rejected")
+				}
+			}
 		}
 		if cs.hasEffect {
 			res.Hist("with-process-effect-attempt")
